@@ -9,6 +9,8 @@ import (
 	"strconv"
 
 	"github.com/apache/thrift/lib/go/thrift"
+	"net/url"
+	"time"
 )
 
 // HTTP server entry point (NewFrugalHandlerFunc) for C05 / C12 / C14.
@@ -152,8 +154,20 @@ var verifHTTPCalls int
 // redirect target for (*http.Client).Do: the peer's answer is whatever the harness prepared.
 func verifHTTPDo(c *http.Client, req *http.Request) (*http.Response, error) {
 	verifHTTPCalls++
+	if verifHTTPDoFn != nil {
+		return verifHTTPDoFn(req)
+	}
+	if verifHTTPServer != nil {
+		resp := verifHTTPServe(req)
+		verifLastStatus = resp.StatusCode
+		return resp, nil
+	}
 	return verifHTTPResponse, verifHTTPErr
 }
+
+// verifHTTPDoFn, when set, is the peer: it may look at the request's context, let
+// virtual time pass, fail, or answer.
+var verifHTTPDoFn func(req *http.Request) (*http.Response, error)
 
 // C05: HTTP client transport: an arbitrary status and an arbitrary decoded body
 // (any frame-size field, any length) never crash the caller.
@@ -222,5 +236,143 @@ func VerifC05_HTTPCall() {
 	res := &verifPingResult{}
 	err := client.Call(fctx, "ping", &verifMsg{a: "q", b: "y", c: "z"}, res)
 	verifAssert(err == nil && res.success != nil && *res.success == "re:q", "a later well-formed reply reaches the caller")
+	verifReach("end")
+}
+
+func init() {
+	verifHarnesses["VerifC12_HTTPEndToEndLimit"] = VerifC12_HTTPEndToEndLimit
+}
+
+// verifHTTPServer, when set, makes the Do model hand the client's real *http.Request to
+// a real frugal HTTP handler and turn what the handler wrote into the *http.Response.
+var verifHTTPServer http.HandlerFunc
+
+func verifHTTPServe(req *http.Request) *http.Response {
+	w := &verifResponseWriter{}
+	verifHTTPServer(w, req)
+	status := w.status
+	if status == 0 {
+		status = 200
+	}
+	return &http.Response{StatusCode: status, Header: w.Header(), Body: io.NopCloser(bytes.NewReader(w.body.Bytes()))}
+}
+
+// C12 end to end over HTTP: the real client transport (with a response size limit)
+// against the real handler: for replies of every size around the limit, the client
+// either receives the reply intact (the server judged it within the limit) or the
+// RESPONSE_TOO_LARGE error (the server answered 413) - a reply the server sent is
+// never rejected by the client, an oversize one never delivered; and the client
+// keeps working.
+func VerifC12_HTTPEndToEndLimit() {
+	hd := &verifPingHandler{outcome: verifOutcome(verifOutValue, 0)}
+	pf := NewFProtocolFactory(thrift.NewTBinaryProtocolFactoryDefault())
+	verifHTTPServer = NewFrugalHandlerFunc(verifPingProcessor(hd), pf)
+	verifHTTPResponse = nil
+	// reply size for the longest argument, measured without a limit
+	args := []string{"", "a", "ab", "abcd", "abcdefgh", "abcdefghijklmnop", "abcdefghijklmnopqrstuvwxyzabcdef"}
+	base := NewFHTTPTransportBuilder(&http.Client{}, "http://h/x").Build()
+	plain := NewFStandardClient(NewFServiceProvider(base, pf))
+	res0 := &verifPingResult{}
+	verifAssert(plain.Call(NewFContext("c"), "ping", &verifMsg{a: args[3], b: "y", c: "z"}, res0) == nil, "unlimited call works")
+	// a limit somewhere inside the range of reply sizes the arguments produce
+	limit := uint(60 + 4*verifChoice(12) + verifParam())
+	tr := NewFHTTPTransportBuilder(&http.Client{}, "http://h/x").WithResponseSizeLimit(limit).Build()
+	client := NewFStandardClient(NewFServiceProvider(tr, pf))
+	for round := 0; round < 2; round++ {
+		arg := args[verifChoice(len(args))]
+		calls := hd.calls
+		res := &verifPingResult{}
+		fctx := NewFContext("c")
+		err := client.Call(fctx, "ping", &verifMsg{a: arg, b: "y", c: "z"}, res)
+		verifAssert(hd.calls == calls+1, "the request reached the handler")
+		served413 := verifLastStatus == http.StatusRequestEntityTooLarge
+		if served413 {
+			te, ok := err.(thrift.TTransportException)
+			verifAssert(ok && te.TypeId() == TRANSPORT_EXCEPTION_RESPONSE_TOO_LARGE, "413 -> RESPONSE_TOO_LARGE")
+			verifReach("too-large")
+		} else {
+			verifAssert(err == nil && res.success != nil && *res.success == "re:"+arg, "a reply the server sent within the limit is delivered intact")
+			verifReach("fits")
+		}
+	}
+	verifHTTPServer = nil
+	verifReach("end")
+}
+
+var verifLastStatus int
+
+func init() {
+	verifHarnesses["VerifC13_HTTPReturns"] = VerifC13_HTTPReturns
+}
+
+// C13 on the HTTP transport: whatever the peer does (silent; drops the connection
+// after d < timeout without answering and is silent from then on; answers after d),
+// Request / Oneway return no later than the FContext timeout after they were called
+// (virtual clock: no scheduling allowance needed), with TIMED_OUT when nothing came.
+func VerifC13_HTTPReturns() {
+	tr := NewFHTTPTransportBuilder(&http.Client{}, "http://h/x").Build()
+	timeouts := []time.Duration{time.Millisecond, 20 * time.Millisecond, 500 * time.Millisecond}
+	timeout := timeouts[verifChoice(len(timeouts))]
+	d := timeout * time.Duration(1+verifChoice(3)) / 4 // 1/4, 1/2, 3/4 of the timeout
+	behaviour := verifParam()
+	calls := 0
+	answered := false
+	silent := func(req *http.Request) (*http.Response, error) {
+		<-req.Context().Done()
+		return nil, &url.Error{Op: "Post", URL: "http://h/x", Err: req.Context().Err()}
+	}
+	// the peer takes d to act; a request whose deadline passes first is abandoned by net/http
+	takes := func(req *http.Request, d time.Duration) bool {
+		if dl, ok := req.Context().Deadline(); req.Context().Err() != nil || (ok && time.Until(dl) < d) {
+			return false
+		}
+		verifAdvanceClock(d)
+		return true
+	}
+	verifHTTPDoFn = func(req *http.Request) (*http.Response, error) {
+		calls++
+		switch behaviour {
+		case 1:
+			if calls == 1 && takes(req, d) {
+				return nil, &url.Error{Op: "Post", URL: "http://h/x", Err: io.EOF} // connection lost before any response
+			}
+		case 2:
+			if !takes(req, d) {
+				return silent(req)
+			}
+			answered = true
+			good := prependFrameSize([]byte{9, 9})
+			return &http.Response{StatusCode: 200, Body: io.NopCloser(bytes.NewReader([]byte(base64.StdEncoding.EncodeToString(good))))}, nil
+		}
+		return silent(req)
+	}
+	c := NewFContext("c")
+	c.SetTimeout(timeout)
+	t0 := time.Now()
+	var err error
+	var res thrift.TTransport
+	if verifChoice(2) == 0 {
+		res, err = tr.Request(c, []byte{0, 0, 0, 1, 7})
+	} else {
+		err = tr.Oneway(c, []byte{0, 0, 0, 1, 7})
+	}
+	elapsed := time.Since(t0)
+	verifAssert(elapsed <= timeout, "the call returns no later than its timeout")
+	switch behaviour {
+	case 0:
+		te, ok := err.(thrift.TTransportException)
+		verifAssert(ok && te.TypeId() == TRANSPORT_EXCEPTION_TIMED_OUT, "a silent peer is reported as TIMED_OUT")
+		verifReach("timed-out")
+	case 1:
+		verifAssert(err != nil, "a lost connection is an error")
+		verifReach("connection-lost")
+	case 2:
+		if answered {
+			verifAssert(err == nil, "an answer inside the timeout is delivered")
+			verifReach("answered")
+		}
+		_ = res
+	}
+	verifHTTPDoFn = nil
 	verifReach("end")
 }
